@@ -354,7 +354,7 @@ def run(ctx):
     if os.environ.get("VERIF_C45_SKIP_TLC"):          # development aid only
         tl = []
     for mod, cfg in tl:
-        jobs.append(ex.submit(ctx.tlc_check, mod, cfg, w, ctx.q(1500, 3400)))
+        jobs.append(ex.submit(ctx.tlc_check, mod, cfg, w, ctx.q(3000, 5400)))
 
     only = os.environ.get("VERIF_C45_ONLY", "")
     hookbin = ctx.build_inpkg(PKG, "replication") if only in ("", "hook") else None
